@@ -64,6 +64,26 @@ def run(replay=None):
             for sc in (1, 2, 3):
                 p.qs.append(("scenario", sc, 0, 0, p.ncmd + 1)); p.emit(f"progress {p.root} 0 2 {f2h(0.5)} " + " ".join(f2h(v) for v in lo + hi) + f" {sc}")
         progs.append(p)
+    # deep octrees: a small solid in a huge region, so that whole sub-trees are pruned at levels 8..13
+    # (the credit for a pruned sub-tree is a 64-bit quantity there)
+    for k in range(6 if quick else 60):
+        p = exprlib.Prog(f"d{k}")
+        for c in ("x", "y", "z"):
+            p.emit(c, "axis")
+        cx = [rng.uniform(1.0, 6.0) for _ in range(3)]
+        d = [p.emit(f"bin OP_SUB {a} {p.emit('const ' + f2h(v), 'const')}", "tree") for a, v in zip((0, 1, 2), cx)]
+        s2 = p.emit(f"bin OP_ADD {p.emit(f'un OP_SQUARE {d[0]}', 'tree')} {p.emit(f'un OP_SQUARE {d[1]}', 'tree')}", "tree")
+        s3 = p.emit(f"bin OP_ADD {s2} {p.emit(f'un OP_SQUARE {d[2]}', 'tree')}", "tree")
+        p.root = p.emit(f"bin OP_SUB {p.emit(f'un OP_SQRT {s3}', 'tree')} {p.emit('const ' + f2h(rng.uniform(1.5, 3.0)), 'const')}", "tree")
+        size = rng.choice([300.0, 1000.0, 3000.0, 9000.0])
+        lo = [-rng.uniform(0.0, 2.0) for _ in range(3)]
+        hi = [l + size for l in lo]
+        p.qs = []
+        for alg in (0, rng.choice([1, 2])):
+            workers = rng.choice([1, 4, 8])
+            args = f"{p.root} {alg} {workers} {f2h(1.0)} " + " ".join(f2h(v) for v in lo + hi)
+            p.qs.append(("render", alg, workers, 1.0, p.ncmd + 1)); p.emit("progress " + args + " 0")
+        progs.append(p)
     exe_h = os.path.join(common.BUILD, "cxx", "bin", "expr")
     hout, hskip = common.run_cases_sharded(exe_h, [p.text() for p in progs], shards=8, timeout=900, single_timeout=240)
     H = parse_out(hout)
